@@ -1,5 +1,5 @@
 import NomtModel.Driver.Parse
-import NomtModel.Api.Locks2
+import NomtModel.Api.Locks2Replay
 /-!
 Driver mode `locks` (C15): the executable two-lock LTS (`Api/Locks2.lean`, instance `stampOps String`: the
 committed content is identified with its root, written as any token without blanks, e.g. the hex root) replays
@@ -13,9 +13,16 @@ Lines (`<tid>`, `<sid>`, `<id>`, `<n>` decimal; `<io>` = `ok` | `faillog` | `fai
 * `call <tid> ovcommit <base> <new> <delta|-> <id> <parent|-> <io>` / `ovtrycommit …` / `ovcommit-holdm …`
 * `call <tid> rollback <n> <io>`                      → `started` | `misuse` (the thread is inside a call)
 * `step <tid>`                                        → `ran <µstep>` | `blocked <µstep>` | `finished <µstep> <verdict>` | `idle`
-* `at <tid> <µstep>` — "thread `tid` performed micro-step `µstep`" as a recorder on the Rust side reports it:
-  the model checks that this IS the thread's next micro-step and that it is enabled, then performs it
-                                                      → `ok ran` | `ok finished <verdict>` | `mismatch next=<µstep>` | `mismatch blocked` | `mismatch idle`
+* `at <tid> <µstep>` — "thread `tid` performed micro-step `µstep`" as the lock recorder (hook H19, `vharness lockrec`)
+  reports it: the model checks that this IS the thread's next micro-step and that it is enabled, then performs it.
+  `call` (of a program of the code) and `at` lines are executed by `Locks2.replayLine` (`Api/Locks2Replay.lean`), the
+  function `T15_replay_sound` is about; `atv <tid> <µstep>` is the same and makes the observation steps `sess_root`,
+  `read_root`, `sess_read` answer with the value they see (`Locks2.stepObs`)
+                                                      → `ok ran [<value>]` | `ok finished <verdict>` | `mismatch next=<µstep>` | `mismatch blocked` | `mismatch idle`
+* `spur <tid> <tid'>` — "thread `tid`'s `try_write` failed while nobody held the access lock and `tid'` was queued at it"
+  (parking_lot's PARKED_BIT; `Event.spur`)            → `ok finished busy` | `mismatch not-spurious`
+* `final`                                             → `root=<r> content=<c> log=<n> poisoned=<b> verdicts=<…>`: the committed state and the verdicts of the
+                                                        write sections in write-guard order (what T15.6 speaks about)
 * `enabled <tid>`                                     → `idle` | `enabled <µstep>` | `blocked <µstep> by <tids>`
 * `state`                                             → one line with the lock words, the committed state and the ghost history
 
@@ -30,11 +37,25 @@ abbrev lOps : DbOps String String String String := stampOps String
 
 def instrName : Instr String String String → String
   | .aRead _ => "A.read" | .aReadUnlock _ => "A.read_unlock" | .aWrite1 => "A.write1" | .aWrite2 => "A.write2"
-  | .aTryWrite => "A.try_write" | .aWriteUnlock => "A.write_unlock" | .mLock => "M.lock" | .mUnlock => "M.unlock"
+  | .aTryWrite => "A.try_write" | .aWriteUnlock _ => "A.write_unlock" | .mLock => "M.lock" | .mUnlock => "M.unlock"
   | .sessRoot _ => "sess_root" | .readRoot => "read_root" | .sessRead _ => "sess_read"
   | .chkMarker _ => "chk_marker" | .chkPoison => "chk_poison" | .chkRoot _ => "chk_root" | .chkSeen => "chk_seen"
   | .pubRoot _ _ => "pub_root" | .pubRb => "pub_rb" | .logPush _ _ => "log_push" | .logPop _ => "log_pop"
   | .store _ _ => "store" | .storeRb _ => "store_rb" | .ret _ => "ret"
+
+def inameStr : IName → String
+  | .aRead => "A.read" | .aReadUnlock => "A.read_unlock" | .aWrite1 => "A.write1" | .aWrite2 => "A.write2"
+  | .aTryWrite => "A.try_write" | .aWriteUnlock => "A.write_unlock" | .mLock => "M.lock" | .mUnlock => "M.unlock"
+  | .sessRoot => "sess_root" | .readRoot => "read_root" | .sessRead => "sess_read"
+  | .chkMarker => "chk_marker" | .chkPoison => "chk_poison" | .chkRoot => "chk_root" | .chkSeen => "chk_seen"
+  | .pubRoot => "pub_root" | .pubRb => "pub_rb" | .logPush => "log_push" | .logPop => "log_pop"
+  | .store => "store" | .storeRb => "store_rb" | .ret => "ret"
+
+def allINames : List IName :=
+  [.aRead, .aReadUnlock, .aWrite1, .aWrite2, .aTryWrite, .aWriteUnlock, .mLock, .mUnlock, .sessRoot, .readRoot,
+   .sessRead, .chkMarker, .chkPoison, .chkRoot, .chkSeen, .pubRoot, .pubRb, .logPush, .logPop, .store, .storeRb, .ret]
+
+def parseIName (s : String) : Option IName := allINames.find? (fun n => inameStr n == s)
 
 def resName : Res → String
   | .ok => "ok" | .done => "done" | .busy => "busy" | .errPoisoned => "err-poisoned" | .errStale => "err-stale"
@@ -96,7 +117,12 @@ def locksStep (s : LS) (line : String) : LS × String :=
   | ["init", r] => (init { content := r, root := r, log := [] }, "ok")
   | "call" :: t :: rest =>
     match t.toNat?, parseCall rest with
-    | some t, some c => let (s', r) := next lOps s (.call t c); (s', showStepRes "" r)
+    | some t, some c =>
+      if c.isCode then
+        match replayLine lOps s (.call t c) with
+        | (s', .started) => (s', "started")
+        | (s', _) => (s', "misuse")
+      else let (s', r) := next lOps s (.call t c); (s', showStepRes "" r)
     | _, _ => (s, "err parse")
   | ["step", t] =>
     match t.toNat? with
@@ -104,18 +130,28 @@ def locksStep (s : LS) (line : String) : LS × String :=
       let i := match (s.thr t).prog with | i :: _ => instrName i | [] => ""
       let (s', r) := next lOps s (.step t); (s', showStepRes i r)
     | none => (s, "err parse")
-  | ["at", t, name] =>
-    match t.toNat? with
-    | some t =>
-      match (s.thr t).prog with
-      | [] => (s, "mismatch idle")
-      | i :: _ =>
-        if instrName i != name then (s, s!"mismatch next={instrName i}")
-        else if blocked s t then (s, "mismatch blocked")
-        else
-          let (s', r) := next lOps s (.step t)
-          (s', match r with | .finished v => s!"ok finished {resName v}" | _ => "ok ran")
-    | none => (s, "err parse")
+  | ["spur", t, u] =>
+    match t.toNat?, u.toNat? with
+    | some t, some u =>
+      match replayLine lOps s (.spur t u) with
+      | (s', .finished v) => (s', s!"ok finished {resName v}")
+      | (s', _) => (s', "mismatch not-spurious")
+    | _, _ => (s, "err parse")
+  | [kw, t, name] =>
+    if kw != "at" && kw != "atv" then (s, "err parse") else
+    match t.toNat?, parseIName name with
+    | some t, some n =>
+      let obs := if kw == "at" then "" else match stepObs s t with | .none => "" | .root r => " " ++ r | .content c => " " ++ c
+      match replayLine lOps s (.at t n) with
+      | (s', .ran) => (s', "ok ran" ++ obs)
+      | (s', .finished v) => (s', s!"ok finished {resName v}")
+      | (s', .idle) => (s', "mismatch idle")
+      | (s', .wrongStep nx) => (s', s!"mismatch next={inameStr nx}")
+      | (s', .blocked) => (s', "mismatch blocked")
+      | (s', _) => (s', "mismatch")
+    | _, _ => (s, "err parse")
+  | ["final"] =>
+    (s, s!"root={s.db.root} content={s.db.content} log={s.db.log.length} poisoned={s.db.poisoned} verdicts={showList (s.doneRes.reverse.map resName)}")
   | ["enabled", t] =>
     match t.toNat? with
     | some t =>
